@@ -1,6 +1,14 @@
 (* layout_main.ml: evaluates the extracted Model/Layout on the observations of
    harness vh_layout (C10). *)
 
+(* a changed implementation may differ on every case: print the first few hundred
+   differences only (all are counted) *)
+let diff_budget = ref 300
+let diff0 = diff
+let diff field ~model ~impl =
+  if !diff_budget > 0 then begin decr diff_budget; diff0 field ~model ~impl end
+  else begin failed_here := true; incr n_diff end
+
 let n0 = n_of_int 0
 let two32 = n_of_hex "100000000"
 let n_lt a b = N.ltb a b
@@ -132,6 +140,10 @@ let handle kind c =
           | Some l -> List.iter (fun (k, v) -> Hashtbl.replace expect k v) l
           | None -> ());
          let prev_limit = ref (limit_of st0.w_bs) in
+         let prev_size = ref (len st0.w_bs) in
+         (* the metadata the file was created with (a later open with other metadata must not replace it) *)
+         let created_meta = if init = [] then Some meta else
+             (match init_sr with Some ((((_, m), _), _), _) -> Some m | None -> None) in
          let two64 = n_of_hex "10000000000000000" in
          let add_expect name delta =
            let cur = try Hashtbl.find expect (str name) with Not_found -> n0 in
@@ -176,12 +188,23 @@ let handle kind c =
              prop "limit-monotone" (Printf.sprintf "op %d: limit %s after %s" i (show_n limit) (show_n !prev_limit));
            if n_lt size limit then
              prop "limit-le-size" (Printf.sprintf "op %d: limit %s size %s" i (show_n limit) (show_n size));
+           (match o with
+            | OpNew _ | OpAdd _ ->
+              if n_lt (N.add !prev_size (n_of_int 32768)) size then
+                prop "growth-bounded" (Printf.sprintf "op %d: one newCounter grew the file from %s to %s bytes" i (show_n !prev_size) (show_n size))
+            | _ -> ());
+           prev_size := size;
            prev_limit := limit
          done;
          let (final, final_sr) = read_file_tok c in
          if !st.w_bs <> final then
            diff "file-bytes" ~model:(Printf.sprintf "first difference at offset %d" (first_diff !st.w_bs final))
              ~impl:(Printf.sprintf "len %d" (List.length final));
+         (match created_meta, final_sr with
+          | Some m0, Some ((((_, m1), _), _), _) when m0 <> m1 && not (List.mem n0 m0) ->
+            prop "meta-readback" (Printf.sprintf "the file was created with metadata %s and now carries %s"
+                                    (clip300 (String.escaped (str m0))) (clip300 (String.escaped (str m1))))
+          | _ -> ());
          if !meta_ok && init_wf then begin
            if final_sr = None then
              prop "wf-file" (Printf.sprintf "the file written by the library does not follow the v1 layout (%d bytes)" (List.length final))
@@ -235,6 +258,14 @@ let handle kind c =
              (let s = show_obs real in if String.length s > 300 then String.sub s 0 300 else s)
              (let s = show_obs spec in if String.length s > 300 then String.sub s 0 300 else s))
     end
+  | "runaway" ->
+    let nops = next_int c in
+    let before = next_n c in
+    let after = next_n c in
+    let what = next c in
+    prop "growth-bounded"
+      (Printf.sprintf "after %d operations (%s) the file grew from %s to %s bytes: more than the two pages one record can need"
+         nops what (show_n before) (show_n after))
   | "race" ->
     let kind = next c in
     let fault = next_int c in
